@@ -58,7 +58,7 @@ def kernel_source(names, sigs):
     src.append("@wp.kernel(module='unique')")
     src.append(f"def {kname}({', '.join(params)}):")
     src.append("  i = wp.tid()")
-    call = f"{n}({', '.join(f'a{j}[i]' for j in range(len(sig['params'])))})"
+    call = f"{sig.get('py', n)}({', '.join(f'a{j}[i]' for j in range(len(sig['params'])))})"
     if len(rets) == 1:
       src.append(f"  o0[i] = {call}")
     else:
@@ -126,7 +126,10 @@ def run(names=None, ncases=64, seed=0, int_ranges=None, rtol=2e-5, atol=1e-6, wp
   sigs = report["signatures"]
   if names is None:
     names = sorted(sigs)
+  int_ranges = int_ranges or {}
   names = [n for n in names if n in sigs and supported(sigs[n])]
+  # integer parameters need a per-function domain (random ints can divide by zero / index out of range)
+  names = [n for n in names if ("I" not in sigs[n]["params"]) or n in int_ranges or any((n, i) in int_ranges for i in range(len(sigs[n]["params"])))]
   skipped = [n for n in (names or []) if n not in sigs]
   src = kernel_source(names, sigs)
   h = hashlib.sha1(src.encode()).hexdigest()[:16]
